@@ -434,7 +434,8 @@ def check_content(scn, res):
                 dst = next((b for a, b in spec if a == t), None)
 
             if dst is not None:
-                exp[dst] = simnet.payload(simnet.KINDS[(j + k) % len(simnet.KINDS)], 'src', 0, k, t)[1]
+                kind = 'bgr' if (srcf.get('payload') or {}).get('reuse') else simnet.KINDS[(j + k) % len(simnet.KINDS)]
+                exp[dst] = simnet.payload(kind, 'src', 0, k, t)[1]
 
         obs = e.get('content', {})
 
